@@ -621,6 +621,44 @@ pub fn v_map_collect_string_set<T, F: Fn(&T) -> String>(s: &[T], f: F, Ghost(val
 }
 #[allow(unused_imports)] pub use strset::v_map_collect_string_set;
 
+/// its own module (see `filterkeys`): R-std helper for the HashMap entry API
+pub mod entrypush {
+use vstd::prelude::*;
+verus!{
+broadcast use super::axiom_key_string;
+/// the map after `m.entry(k).or_default().push(v)`: key `k` is present, its vector is the old one (or the empty
+/// default) with `v` appended, every other entry is untouched
+pub open spec fn entry_pushed<V>(old_m: Map<String, Vec<V>>, new_m: Map<String, Vec<V>>, k: String, v: V) -> bool {
+    &&& new_m.dom() == old_m.dom().insert(k)
+    &&& new_m[k]@ == (if old_m.contains_key(k) { old_m[k]@.push(v) } else { seq![v] })
+    &&& forall|j: String| #![trigger new_m[j]] old_m.contains_key(j) && j != k ==> new_m[j] == old_m[j]
+}
+/// R-std: `m.entry(k).or_default().push(v)` on a `HashMap<String, Vec<V>>` (**verified** against the std contracts
+/// of `get_mut` / `insert` / `Vec::push`; the entry API itself is outside Verus' subset)
+pub fn v_entry_push<V>(m: &mut std::collections::HashMap<String, Vec<V>>, k: String, v: V)
+    ensures entry_pushed(old(m)@, final(m)@, k, v)
+{
+    broadcast use vstd::std_specs::hash::group_hash_axioms;
+    let ghost m0 = m@;
+    match m.get_mut(&k) {
+        Some(vec) => {
+            let ghost v0 = vec@;
+            assert(m0.contains_key(k) && m0[k]@ == v0);
+            vec.push(v);
+        }
+        None => {
+            assert(!m0.contains_key(k));
+            let mut nv = Vec::new();
+            nv.push(v);
+            m.insert(k, nv);
+        }
+    }
+    assert(m@.dom() =~= m0.dom().insert(k));
+}
+}
+}
+#[allow(unused_imports)] pub use entrypush::{v_entry_push, entry_pushed};
+
 /// its own module: only the hash-map axioms are in scope (the crate's broadcast groups made these proofs unstable)
 pub mod filterkeys {
 use vstd::prelude::*;
